@@ -91,7 +91,7 @@ func c16TmIndex(kind string) int {
 }
 
 func (t c16TM) typeMeta() kyaml.TypeMeta { return kyaml.TypeMeta{APIVersion: t.AV, Kind: t.Kind} }
-func (t c16TM) coq() string             { return fmt.Sprintf("(%s, %s)", coqStr(t.AV), coqStr(t.Kind)) }
+func (t c16TM) coq() string              { return fmt.Sprintf("(%s, %s)", coqStr(t.AV), coqStr(t.Kind)) }
 func (t c16TM) gvk() (g, v, k string) {
 	if i := strings.Index(t.AV, "/"); i >= 0 {
 		return t.AV[:i], t.AV[i+1:], t.Kind
@@ -152,7 +152,6 @@ func c16ListProps(path []string, mk bool) map[string]interface{} {
 	}
 	return map[string]interface{}{"type": "object", "properties": map[string]interface{}{path[0]: c16ListProps(path[1:], mk)}}
 }
-
 
 // genSchema16 makes custom schema number id (ids start at 1).
 func genSchema16(g *Rng, id int) c16Schema {
@@ -627,15 +626,15 @@ type c16Seq struct {
 }
 
 type c16Step struct {
-	Class string                 `json:"class"`
-	Msg   string                 `json:"msg"`
-	A     bool                   `json:"a"`
-	B     bool                   `json:"b"`
-	Found bool                   `json:"found"` // schemafor: a schema was returned
-	Desc  string                 `json:"desc"`
-	Str   string                 `json:"str"`
-	Out   string                 `json:"out"`
-	Snap  openapi.VerifStateC16  `json:"snap"`
+	Class string                `json:"class"`
+	Msg   string                `json:"msg"`
+	A     bool                  `json:"a"`
+	B     bool                  `json:"b"`
+	Found bool                  `json:"found"` // schemafor: a schema was returned
+	Desc  string                `json:"desc"`
+	Str   string                `json:"str"`
+	Out   string                `json:"out"`
+	Snap  openapi.VerifStateC16 `json:"snap"`
 }
 
 type c16SeqRes struct {
@@ -1040,7 +1039,22 @@ func c16Header() (string, error) {
 		env, coqStrList(c16Names), strings.Join(tms, "; ")), nil
 }
 
+// c16PrecompTerm: the runtime value of precomputedIsNamespaceScoped (through the hook) as a Coq list.
+func c16PrecompTerm() string {
+	rows := []string{}
+	for _, l := range openapi.VerifPrecomputedC16() {
+		eq := strings.LastIndex(l, "=")
+		bar := strings.Index(l, "|")
+		rows = append(rows, fmt.Sprintf("(%s, %s, %s)", coqStr(l[:bar]), coqStr(l[bar+1:eq]), l[eq+1:]))
+	}
+	return "[" + strings.Join(rows, "; ") + "]"
+}
+
 func c16CaseTerm(seq c16Seq, res c16SeqRes) (string, error) {
+	return c16CaseTermP(seq, res, "[]")
+}
+
+func c16CaseTermP(seq c16Seq, res c16SeqRes, precomp string) (string, error) {
 	steps := []string{}
 	for i, op := range seq.Ops {
 		st := res.Steps[i]
@@ -1083,7 +1097,7 @@ func c16CaseTerm(seq c16Seq, res c16SeqRes) (string, error) {
 		}
 		steps = append(steps, fmt.Sprintf("(mkStep %s %s %s %s)", opT, st.Class, obs, c16SnapTerm(st.Snap, seq.Schemas)))
 	}
-	return fmt.Sprintf("(mk16 E16 N16 T16 %s [%s])", c16SnapTerm(res.First, seq.Schemas), strings.Join(steps, ";\n    ")), nil
+	return fmt.Sprintf("(mk16 E16 N16 T16 %s [%s] %s)", c16SnapTerm(res.First, seq.Schemas), strings.Join(steps, ";\n    "), precomp), nil
 }
 
 // ---------------------------------------------------------------- run
@@ -1152,7 +1166,11 @@ func runC16(r *Run, rng *Rng, tier string) error {
 		}
 		last := res.Steps[len(res.Steps)-1].Snap
 		r.Count("final_state", fmt.Sprintf("custom=%v init=%v dflt=%d", last.HasCustom, last.SchemaInit, last.DefaultStatus))
-		term, err := c16CaseTerm(seq, res)
+		precomp := "[]"
+		if i == 0 {
+			precomp = c16PrecompTerm() // the first case also carries the runtime precomputed table
+		}
+		term, err := c16CaseTermP(seq, res, precomp)
 		if err != nil {
 			// the output could not be interpreted: report instead of skipping silently
 			r.Violation(OracleViolation{Law: "harness", Class: "C16/harness-cannot-interpret-output", Detail: err.Error(), Replay: seq})
